@@ -306,11 +306,16 @@ impl<T: IntoVal, E: IntoVal> Observer<T, E> for Probe {
 
 // ---------------------------------------------------------------- virtual time
 
+/// One virtual time unit is 900 microseconds: a one-unit delay is a non-zero
+/// sub-millisecond `Duration`, two units are 1.8 ms, so code that rounds
+/// durations to whole milliseconds or seconds is exercised by every harness.
+pub const UNIT_US: u64 = 900;
 pub fn dur_units(d: Duration) -> u64 {
-  d.as_millis() as u64
+  let us = d.as_micros() as u64;
+  (us + UNIT_US - 1) / UNIT_US
 }
 pub fn units(n: u64) -> Duration {
-  Duration::from_millis(n)
+  Duration::from_micros(n * UNIT_US)
 }
 
 pub struct TimerFut {
@@ -341,7 +346,8 @@ pub fn virtual_timer(d: Duration) -> futures::future::BoxFuture<'static, ()> {
   let id = w(|w| {
     let dur = dur_units(d);
     let now = w.now;
-    w.timer_requests.push((now, dur));
+    // requests are logged in milliseconds of the asked Duration (what the _at checks compare)
+    w.timer_requests.push((now, d.as_millis() as u64));
     w.timers.push(TimerSlot { due: now + dur, created: now, dur, waker: None });
     w.timers.len() - 1
   });
